@@ -36,8 +36,8 @@ KNOBS = {"fide": ["attr-order", "mandatory-false", "abstract-false", "graphics",
                   "empty-constraints", "siblings", "compact", "standalone", "description", "hidden-attr",
                   "mandatory-in-group"],
          "fama": ["card-after", "attr-order", "mixed-case", "compact", "set-for-single", "repeat-ctc"],
-         "afm": ["spaces", "group-first", "parens", "empty-blocks"],
-         "glencoe": ["ids", "key-order", "nary", "notes"]}
+         "afm": ["spaces", "group-first", "parens", "empty-blocks", "blocks"],
+         "glencoe": ["ids", "key-order", "nary", "notes", "ids-are-other-names"]}
 LOG5 = ("NOT", "AND", "OR", "IMPLIES", "EQUIVALENCE")
 
 
@@ -73,7 +73,9 @@ def spec_classes(fmt):
 def chain(op):
     def f(spec, r):
         names = S.feature_names(spec)
-        xs = r.sample(names, min(len(names), r.randint(3, 5)))
+        k = r.choice([r.randint(3, 5), r.randint(6, 12), r.randint(13, 34)])
+        xs = [names[j % len(names)] for j in range(k)]
+        r.shuffle(xs)
         t = xs[0]
         for x in xs[1:]:
             t = [op, t, x]
